@@ -435,6 +435,63 @@ class PathEnum:
         elif retnode is None:
             q.env[key] = None
 
+    def _const_table(self, it, fr):
+        """elements of a literal tuple/list iterated by a for statement -- written in place, bound once to a local of
+        the function, or a class attribute (self.X / Cls.X); None for anything else"""
+        func = getattr(fr, 'func', None)
+        node = it
+        if isinstance(it, ast.Name) and func is not None and hasattr(func, 'node'):
+            defs = [n.value for n in ast.walk(func.node) if isinstance(n, ast.Assign) and any(isinstance(t, ast.Name) and t.id == it.id for t in n.targets)]
+            others = [n for n in ast.walk(func.node) if isinstance(n, (ast.AugAssign, ast.For)) and any(
+                isinstance(x, ast.Name) and x.id == it.id for x in ast.walk(getattr(n, 'target', n)))]
+            node = defs[0] if len(defs) == 1 and not others else None
+        elif isinstance(it, ast.Attribute) and isinstance(it.value, ast.Name) and getattr(fr, 'cls', None) is not None \
+                and it.value.id in ('self', 'cls', fr.cls.name):
+            k, v = self.idx.find_attr(fr.cls, it.attr)
+            node = v if k is not None else None
+            # an instance attribute of the same name would shadow the class-level table
+            if node is not None:
+                for c in self.idx.mro(fr.cls):
+                    for m in c.methods.values():
+                        for n in ast.walk(m.node):
+                            if isinstance(n, ast.Attribute) and n.attr == it.attr and isinstance(n.ctx, ast.Store):
+                                node = None
+        if isinstance(node, (ast.Tuple, ast.List)) and all(isinstance(e, (ast.Tuple, ast.List, ast.Constant, ast.Name, ast.Attribute)) for e in node.elts):
+            return list(node.elts)
+        return None
+
+    def _unrolled_for(self, s, elts, p, fr):
+        """`for target in (e1, ..., en)` over a constant table: the iterations are enumerated one after the other with the
+        target bound to each element (break leaves the loop, continue / fall-through goes on to the next element)"""
+        outs = []
+        q0 = p.fork()
+        q0.ev.append(Ev('loop', s, fr, 'enter'))
+        cur = [q0]
+        for el in elts:
+            nxt = []
+            a = ast.Assign(targets=[s.target], value=el, lineno=s.lineno, col_offset=s.col_offset)
+            a._parent = s
+            for q in cur:
+                for r in self.stmt(a, q, fr):
+                    if r.exit is not None:
+                        outs.append(r)
+                        continue
+                    for r2 in self.block(s.body, r, fr):
+                        if r2.exit == 'break':
+                            r2.exit = None
+                            r2.ev.append(Ev('loop', s, fr, 'break'))
+                            outs.append(r2)
+                        elif r2.exit in (None, 'continue'):
+                            r2.exit = None
+                            nxt.append(r2)
+                        else:
+                            outs.append(r2)
+            cur = nxt
+        for q in cur:
+            q.ev.append(Ev('loop', s, fr, 'backedge'))
+            outs += self.block(s.orelse, q, fr) if s.orelse else [q]
+        return outs
+
     def run_block(self, func, cls, stmts, consts=None):
         """enumerate only a region (statement list) of func"""
         p = Path()
@@ -558,6 +615,10 @@ class PathEnum:
                             r.ev.append(Ev('loop', s, fr, 'backedge'))
                         outs.append(r)
             return outs
+        if isinstance(s, ast.For):
+            elts = self._const_table(s.iter, fr)
+            if elts is not None and 1 <= len(elts) <= 8:
+                return self._unrolled_for(s, elts, p, fr)
         if isinstance(s, (ast.For, ast.AsyncFor)):
             outs = []
             q0 = p.fork()
